@@ -68,7 +68,7 @@ fn base(prop: Prop) -> Profile {
         prop,
         ops: [30, 6, 6, 8, 3, 3, 4, 4, 2, 1, 6, 2, 2],
         req_kinds: ALL_REQS,
-        fault_max: [2, 2, 2, 2, 2, 2, 2, 2, 1, 0, 0, 3, 3, 0, 0, 0, 1],
+        fault_max: [2, 2, 2, 2, 2, 2, 2, 2, 1, 0, 0, 3, 3, 0, 0, 0, 1, 1],
         fault_free_w: 1,
         faulty_w: 3,
         allow_panic_inputs: false,
@@ -86,7 +86,7 @@ pub fn profile_for(prop: Prop) -> Profile {
         Prop::C01 => {
             // fault-free control configuration: only faults that do not alter bytes
             p.ops = [30, 12, 12, 14, 3, 3, 2, 2, 0, 2, 0, 0, 0];
-            p.fault_max = [1, 2, 2, 0, 0, 0, 0, 0, 0, 0, 0, 3, 3, 0, 0, 0, 0];
+            p.fault_max = [1, 2, 2, 0, 0, 0, 0, 0, 0, 0, 0, 3, 3, 0, 0, 0, 0, 0];
             p.fault_free_w = 1;
             p.faulty_w = 1;
             p.big_bodies = 4;
@@ -96,7 +96,7 @@ pub fn profile_for(prop: Prop) -> Profile {
         Prop::C02 => {
             p.ops = [34, 6, 6, 8, 3, 2, 3, 3, 0, 1, 3, 0, 2];
             p.req_kinds = [10, 4, 4, 3, 4, 5, 1, 1, 1, 1, 0, 0, 0, 0, 1, 1, 0];
-            p.fault_max = [1, 2, 2, 3, 3, 3, 2, 3, 1, 0, 0, 2, 2, 0, 0, 0, 0];
+            p.fault_max = [1, 2, 2, 3, 3, 3, 2, 3, 1, 0, 0, 2, 2, 0, 0, 0, 0, 1];
             p.fault_free_w = 1;
             p.faulty_w = 6;
             p.snoop_pc = 40;
@@ -104,7 +104,7 @@ pub fn profile_for(prop: Prop) -> Profile {
         Prop::C04 => {
             p.ops = [24, 14, 14, 10, 1, 1, 0, 2, 0, 1, 8, 2, 0];
             p.forge_valid_pc = 60;
-            p.fault_max = [0, 2, 2, 0, 0, 0, 0, 0, 0, 0, 0, 3, 3, 0, 0, 0, 0];
+            p.fault_max = [0, 2, 2, 0, 0, 0, 0, 0, 0, 0, 0, 3, 3, 0, 0, 0, 0, 1];
             p.big_bodies = 6;
             p.fault_free_w = 1;
             p.faulty_w = 2;
@@ -115,12 +115,12 @@ pub fn profile_for(prop: Prop) -> Profile {
             p.ops = [20, 1, 1, 40, 4, 8, 1, 2, 0, 3, 10, 0, 0];
             p.req_kinds = [12, 6, 3, 2, 3, 3, 0, 0, 0, 0, 0, 0, 0, 0, 0, 0, 0];
             p.forge_valid_pc = 60;
-            p.fault_max = [1, 1, 1, 1, 1, 0, 0, 0, 0, 0, 0, 2, 2, 0, 0, 0, 0];
+            p.fault_max = [1, 1, 1, 1, 1, 0, 0, 0, 0, 0, 0, 2, 2, 0, 0, 0, 0, 1];
             p.snoop_pc = 10;
         }
         Prop::C09 => {
             p.ops = [20, 6, 6, 10, 2, 2, 3, 1, 0, 1, 40, 3, 6];
-            p.fault_max = [1, 1, 1, 3, 3, 3, 3, 3, 1, 0, 0, 2, 2, 0, 0, 0, 0];
+            p.fault_max = [1, 1, 1, 3, 3, 3, 3, 3, 1, 0, 0, 2, 2, 0, 0, 0, 0, 2];
             p.fault_free_w = 1;
             p.faulty_w = 4;
             p.snoop_pc = 90;
@@ -129,7 +129,7 @@ pub fn profile_for(prop: Prop) -> Profile {
         }
         Prop::C10 => {
             p.ops = [18, 5, 5, 8, 2, 2, 3, 2, 0, 2, 40, 4, 14];
-            p.fault_max = [1, 2, 2, 3, 3, 3, 3, 3, 2, 0, 0, 3, 3, 0, 0, 0, 2];
+            p.fault_max = [1, 2, 2, 3, 3, 3, 3, 3, 2, 0, 0, 3, 3, 0, 0, 0, 2, 2];
             p.fault_free_w = 1;
             p.faulty_w = 6;
             p.allow_panic_inputs = true;
@@ -139,7 +139,7 @@ pub fn profile_for(prop: Prop) -> Profile {
         }
         Prop::C11 => {
             p.ops = [24, 8, 10, 14, 2, 2, 2, 2, 0, 1, 16, 2, 4];
-            p.fault_max = [1, 2, 2, 2, 2, 2, 2, 2, 1, 0, 0, 2, 2, 0, 0, 0, 0];
+            p.fault_max = [1, 2, 2, 2, 2, 2, 2, 2, 1, 0, 0, 2, 2, 0, 0, 0, 0, 1];
             p.snoop_pc = 10;
             p.forge_valid_pc = 70;
         }
@@ -147,7 +147,7 @@ pub fn profile_for(prop: Prop) -> Profile {
             p.ops = [60, 1, 1, 2, 2, 3, 1, 6, 0, 2, 10, 0, 0];
             p.forge_valid_pc = 85;
             p.req_kinds = ANSWERABLE;
-            p.fault_max = [2, 2, 3, 1, 1, 0, 0, 0, 0, 0, 0, 2, 2, 0, 0, 0, 0];
+            p.fault_max = [2, 2, 3, 1, 1, 0, 0, 0, 0, 0, 0, 2, 2, 0, 0, 0, 0, 1];
             p.forge_iid_pm = 800;
             p.fault_free_w = 1;
             p.faulty_w = 3;
@@ -156,7 +156,7 @@ pub fn profile_for(prop: Prop) -> Profile {
         Prop::C13 => {
             p.ops = [46, 3, 3, 5, 1, 8, 8, 2, 0, 4, 8, 0, 2];
             p.req_kinds = [24, 8, 2, 2, 2, 2, 1, 1, 1, 0, 0, 0, 0, 0, 0, 0, 0];
-            p.fault_max = [2, 3, 3, 3, 3, 2, 1, 2, 1, 0, 0, 2, 2, 0, 0, 0, 0];
+            p.fault_max = [2, 3, 3, 3, 3, 2, 1, 2, 1, 0, 0, 2, 2, 0, 0, 0, 0, 1];
             p.fault_free_w = 1;
             p.faulty_w = 4;
             p.snoop_pc = 40;
@@ -165,7 +165,7 @@ pub fn profile_for(prop: Prop) -> Profile {
         Prop::C14 => {
             p.ops = [20, 1, 1, 1, 1, 1, 1, 40, 0, 1, 0, 0, 0];
             p.req_kinds = [2, 1, 1, 1, 1, 30, 0, 0, 0, 0, 0, 0, 0, 0, 0, 0, 0];
-            p.fault_max = [2, 3, 3, 0, 3, 0, 0, 0, 0, 0, 0, 2, 2, 0, 0, 0, 0];
+            p.fault_max = [2, 3, 3, 0, 3, 0, 0, 0, 0, 0, 0, 2, 2, 0, 0, 0, 0, 0];
             p.forge_iid_pm = 300;
             p.fault_free_w = 1;
             p.faulty_w = 3;
@@ -174,13 +174,13 @@ pub fn profile_for(prop: Prop) -> Profile {
         Prop::C15 => {
             p.ops = [50, 3, 3, 3, 12, 3, 3, 3, 0, 4, 4, 0, 1];
             p.req_kinds = [4, 2, 14, 10, 14, 3, 0, 0, 1, 0, 0, 0, 0, 0, 0, 0, 0];
-            p.fault_max = [2, 2, 2, 2, 2, 2, 1, 1, 1, 0, 0, 2, 2, 0, 0, 0, 0];
+            p.fault_max = [2, 2, 2, 2, 2, 2, 1, 1, 1, 0, 0, 2, 2, 0, 0, 0, 0, 1];
             p.snoop_pc = 20;
             p.forge_valid_pc = 90;
         }
         Prop::C16 => {
             p.ops = [30, 12, 12, 16, 2, 2, 0, 2, 14, 1, 0, 0, 0];
-            p.fault_max = [1, 1, 1, 0, 0, 0, 0, 0, 0, 0, 0, 1, 1, 0, 0, 0, 0];
+            p.fault_max = [1, 1, 1, 0, 0, 0, 0, 0, 0, 0, 0, 1, 1, 0, 0, 0, 0, 0];
             p.big_bodies = 5;
             p.snoop_pc = 0;
             p.fault_free_w = 2;
@@ -188,7 +188,7 @@ pub fn profile_for(prop: Prop) -> Profile {
         }
         Prop::C17 => {
             p.ops = [24, 8, 8, 8, 1, 1, 1, 2, 0, 1, 10, 12, 14];
-            p.fault_max = [1, 2, 2, 3, 2, 3, 3, 3, 1, 0, 0, 3, 3, 0, 0, 0, 0];
+            p.fault_max = [1, 2, 2, 3, 2, 3, 3, 3, 1, 0, 0, 3, 3, 0, 0, 0, 0, 1];
             p.big_bodies = 3;
             p.snoop_pc = 60;
             p.allow_panic_inputs = false;
